@@ -781,12 +781,14 @@ def default_membership(rep, rng, idx):
     """`make all` from scratch builds exactly what default()/fallback says; alias/test targets depend on members."""
     bad = 0
     with project.Scratch('c03d') as s:
-        explicit = rng.random() < 0.5
-        tested = rng.random() < 0.7
+        # the four shapes that matter are enumerated (idx), further ones are random
+        shapes = [(None, True), (['b'], True), (['c'], True), (['b', 'c'], True), (None, False), (['a', 'c'], False)]
+        dflt, tested = shapes[idx] if idx < len(shapes) else (rng.choice([None, ['a'], ['b', 'c'], ['c']]), rng.random() < 0.7)
+        explicit = dflt is not None
         lines = ["project('d')", "a = executable('a', files=['a.c'])", "b = executable('b', files=['b.c'])",
                  "c = executable('c', files=['c.c'])"]
         if explicit:
-            lines.append("default(b)")
+            lines.append("default(%s)" % ', '.join(dflt))
         if tested:
             lines.append("test(c)")
         lines.append("alias('both', [a, c])")
@@ -799,7 +801,7 @@ def default_membership(rep, rng, idx):
             if rc != 0:
                 rep.fail('configure failed for the default-membership project: %s' % out[-300:], {'script': files['build.bfg']})
                 return 1
-            want = {'b'} if explicit else ({'a', 'b'} if tested else {'a', 'b', 'c'})
+            want = set(dflt) if explicit else ({'a', 'b'} if tested else {'a', 'b', 'c'})
             if backend == 'make':
                 rcm, recs, mout = project.make(bdir, ['all'], stub_tools=True)
                 got = set(x[5:] for x in filter(None, (step_id(r['argv'], s.src) for r in recs)) if x.startswith('link:'))
@@ -988,7 +990,7 @@ def run(rep):
         found += bad_e2
     for i in range((12 if thorough else 2) * (3 if dis else 1)):
         found += one_project(rep, rng, i)
-    for i in range(8 if thorough else 2):
+    for i in range(12 if thorough else 4):
         found += default_membership(rep, rng, i)
     rep.stage('projects', built=rep.traces, failures=found)
     if rep.traces == 0:
